@@ -25,7 +25,9 @@ package jsonrpc2
 //@ global-invariant ErrInvalidRequest != nil
 //@ global-invariant ErrInternal != nil
 //@ global-invariant ErrRejected != nil
-//@ func init [C01, C02, C04, C05]
+//@ global-invariant ErrParse != nil
+//@ global-invariant ErrInvalidParams != nil
+//@ func init [C01, C02, C03, C04, C05, C19]
 
 //@ pred idle(s *inFlightState) := len(s.outgoingCalls) == 0 && s.outgoingNotifications == 0 && s.incoming == 0 && !s.handlerRunning
 //@ pred shutting(s *inFlightState) := s.connClosing || s.readErr != nil || s.writeErr != nil
@@ -218,3 +220,61 @@ package jsonrpc2
 //@   modifies *
 //@   assert at call release: @hard-release !$1
 //@   ensures @at-most-one-release calls(releaseDispatcher) <= 1
+
+// ---------------------------------------------------------------------------------------------
+// C19: id coercion, error-to-wire mapping, message classification (the part of the codec that is SDK code)
+// ---------------------------------------------------------------------------------------------
+// toInt64 is Go's float64 -> int64 conversion (uninterpreted here; its exactness on integers is the raw lemma
+// specs/lemmas/C19-id-exactness*.smt2).
+//@ func MakeID [C19]
+//@   nopanic
+//@   ensures @no-id v == nil ==> result.1 == nil && result.0.value == nil
+//@   ensures @string-id typeIs(v, string) ==> result.1 == nil && typeIs(result.0.value, string) && result.0.value.(string) == v.(string)
+//@   ensures @number-id typeIs(v, float64) ==> result.1 == nil && typeIs(result.0.value, int64) && result.0.value.(int64) == toInt64(v.(float64))
+//@   ensures @other-types-rejected v != nil && !typeIs(v, string) && !typeIs(v, float64) ==> result.1 != nil && errIs(result.1, ErrParse) && result.0.value == nil
+
+//@ func StringID [C19]
+//@   ensures typeIs(result.value, string) && result.value.(string) == s
+//@ func Int64ID [C19]
+//@   ensures typeIs(result.value, int64) && result.value.(int64) == i
+//@ func (ID).IsValid [C19]
+//@   ensures result <==> id.value != nil
+
+// (*WireError).Is: two wire errors are the same error iff their codes agree.
+//@ func (*WireError).Is [C19]
+//@   requires err != nil
+//@   ensures @code-equality result <==> (typeIs(other, *WireError) && other.(*WireError) != nil && err.Code == other.(*WireError).Code)
+
+// marshal copies id, method and params (and result) to the wire form unchanged.
+//@ func (*Request).marshal [C19]
+//@   requires msg != nil && to != nil
+//@   modifies to.ID, to.Method, to.Params
+//@   ensures @copied to.ID == msg.ID.value && to.Method == msg.Method && to.Params == msg.Params
+//@ func (*Response).marshal [C19]
+//@   track toWireError as wireErr
+//@   requires msg != nil && to != nil
+//@   modifies *
+//@   assert at call toWireError: @error-is-mapped $0 == msg.Error
+
+// DecodeMessage (after the library decode): wrong version tag or undecodable id => error; a message with a method key
+// is a Request carrying the decoded id and the params; otherwise it must have a valid id and is a Response carrying
+// id, result and (only if present) the error.
+// decodeID: no id => the zero ID; an id that strconv.ParseInt accepts (an integer in int64 range, ParseInt trusted)
+// becomes exactly that integer, without any float64 step; everything else goes through MakeID.
+//@ func decodeID [C19]
+//@   track strconv.ParseInt as pint
+//@   track MakeID as mk
+//@   modifies *
+//@   ensures @absent-id len(raw) == 0 ==> result.1 == nil && result.0.value == nil && calls(mk) == 0
+//@   ensures @integer-id-exact len(raw) != 0 ==> calls(pint) == 1
+//@   ensures @integer-id-exact-value calls(pint) == 1 && callResult(pint, 1, 1) == nil ==> result.1 == nil && typeIs(result.0.value, int64) && result.0.value.(int64) == callResult(pint, 1, 0) && calls(mk) == 0
+//@   ensures @fallback-is-makeid result.1 == nil && calls(pint) == 1 && callResult(pint, 1, 1) != nil ==> calls(mk) == 1 && result.0 == callResult(mk, 1, 0)
+
+//@ func DecodeMessage [C19]
+//@   track decodeID as mkid
+//@   modifies *
+//@   ensures @exactly-one-of result.0 == nil <==> result.1 != nil
+//@   ensures @id-error-propagates calls(mkid) == 1 && callResult(mkid, 1, 1) != nil ==> result.1 == callResult(mkid, 1, 1)
+//@   ensures @request-keeps-id result.1 == nil && typeIs(result.0, *Request) ==> calls(mkid) == 1 && result.0.(*Request).ID == callResult(mkid, 1, 0)
+//@   ensures @response-keeps-id result.1 == nil && typeIs(result.0, *Response) ==> calls(mkid) == 1 && result.0.(*Response).ID == callResult(mkid, 1, 0) && result.0.(*Response).ID.value != nil
+//@   ensures @only-requests-and-responses result.1 == nil ==> typeIs(result.0, *Request) || typeIs(result.0, *Response)
